@@ -165,8 +165,11 @@ PROPS = {
              'Proved: add_var (idempotent for existing names, next bottom level by default, ValueError iff conflict with state unchanged, '
              'all functions and the WF invariant kept), _check_var, _next_free_level, _init_terminal, declare (loop invariant), '
              'var_at_level / level_of_var / var_levels as views of one bijection (W8), var. Precondition level <= len(vars): a larger '
-             'explicit level leaves a gap (known finding D4). undeclare_vars (comprehensions rebuilding three tables) is bounded-checked.',
-             bounded=['vlib.rtc.c14'], tb=['undeclare_vars: bounded only'], design_ref='DESIGN.md 7/C14'),
+             'explicit level leaves a gap (known finding D4). The refusals of undeclare_vars are proved as a prefix contract (ValueError with nothing modified iff a named variable is '
+             'undeclared or its level still holds a node); its rebuilding of the three tables by comprehensions is outside the generator: '
+             'stated as an observed contract in the language of the model (exactly the requested / all unused variables go, relative order and every '
+             'function kept) that z3 evaluates on real executions, and bounded-checked.',
+             bounded=['vlib.rtc.c14'], tb=['undeclare_vars (rebuilding part): bounded / observed only'], design_ref='DESIGN.md 7/C14'),
     'C15': P('exploration', 'Variadic MDD code and bdd_to_mdd: outside the generator. Run-time contracts over generated conversions and MDD histories.',
              proof=False, bounded=['vlib.rtc.c15'], design_ref='DESIGN.md 7/C15'),
     'C16': P('exploration', 'Text parsing through PLY and line splitting. Run-time contracts over generated DDDMP files.',
